@@ -153,7 +153,11 @@ impl TxPoolService {
 
                 if !may_recovered_txs.is_empty() {
                     let self_clone = self.clone();
+                    #[cfg(feature = "verif-hooks")]
+                    let verif_guard = self.verif_inflight.enter();
                     tokio::spawn(async move {
+                        #[cfg(feature = "verif-hooks")]
+                        let _verif_guard = verif_guard;
                         // push the recovered txs back to verify queue, so that they can be verified and submitted again
                         let mut queue = self_clone.verify_queue.write().await;
                         for tx in may_recovered_txs {
